@@ -1,11 +1,17 @@
 """C22 - metadata change subscribers see every change once, in order
-(Subscribe.tla / LogBufferImpl.tla on weed/util/log_buffer)."""
+(Subscribe.tla = the property, LogBufferImpl.tla = weed/util/log_buffer as implemented)."""
 import json
 import os
 import random
 
+import vf
+
 READERS = {1, 2, 3}
+# every scheduled execution ends the same way: Shutdown + all flushes, a late subscriber from the
+# very beginning (it is served from the flushed data), every subscriber runs until it waits -> "end"
 TAIL = [{"ev": "quiesce"}, {"ev": "start", "r": 3, "t0": 0}, {"ev": "drain"}]
+HOOK = {"mode": "hook", "interval": 2, "cap": 2, "unit": 1, "k": 1, "psz": 8}
+LAG = "C22-flush-lag-gap"
 
 
 def impl_constants(**kw):
@@ -23,15 +29,13 @@ def write_script(path, scripts):
                 f.write(json.dumps(op) + "\n")
 
 
-HOOK = {"mode": "hook", "interval": 2, "cap": 2, "unit": 1, "k": 1, "psz": 8}
-
-
 def public_cfg(interval):
+    """NewLogBuffer itself: 4 MiB buffers, the timer goroutine asleep for `interval` seconds;
+    logical time = 10 per second (the last digit is room for bumped timestamps)"""
     return {"mode": "public", "interval": interval * 10, "cap": 100000, "unit": 1000000000, "k": 10, "psz": 8}
 
 
 def to_public(ops):
-    """the same schedule on the 10-per-second grid of the public-constructor executions"""
     out = []
     for op in ops:
         op = dict(op)
@@ -43,8 +47,10 @@ def to_public(ops):
     return out
 
 
-def random_scripts(rng, n, public=False):
-    """G4: seeded random schedules (inputs only)."""
+def random_scripts(rng, n, public=False, sizes=False):
+    """G4: seeded random schedules (inputs only): appends with repeated / past / far-ahead
+    timestamps, timer flushes, flusher steps, subscribers starting at 0, at exact event
+    timestamps, one before / after them and in the future."""
     res = []
     for _ in range(n):
         interval = rng.choice([1, 2, 3, 5])
@@ -64,6 +70,8 @@ def random_scripts(rng, n, public=False):
                 op = {"ev": "append", "id": nid, "req": ts}
                 if not public and rng.random() < 0.1:
                     op["req"] = max(1, ts - rng.randint(1, 3))      # a request in the past: bumped
+                if sizes:
+                    op["psz"] = rng.choice([8, 8, 9, 15, 40, 300])   # 300 does not fit a small buffer
                 ops.append(op)
             elif x < 0.42:
                 ops.append({"ev": "tflush"})
@@ -81,53 +89,141 @@ def random_scripts(rng, n, public=False):
                 ops += [{"ev": "rd", "r": r}] * rng.choice([1, 1, 2, 4])
         if public:
             cfg = public_cfg(interval)
-            ops = [o for o in to_public(ops)]
+            ops = to_public(ops)
         res.append((cfg, ops + TAIL))
     return res
 
 
-def run(ctx):
-    ctx.sany("Subscribe", "SubscribeMC", "LogBufferImpl", "SubscribeTrace")
+def gen_scripts(ctx):
     T = ctx.thorough
-    # 1. layer A alone: the statement's wording follows from the prefix formulation
+    rng = random.Random(ctx.seed)
+    # (a) the schedules on which the model of the code AS IT WAS (SealBuffer returning the memory of
+    #     the shifted slot 0) breaks the property: TLC finds them, the real code replays them
+    bad = ctx.instance("GB_LogBufferImpl_alias", "LogBufferImpl",
+                       "SPECIFICATION Spec\nINVARIANT EmitBad\nCONSTRAINT Good\nVIEW MCView\nCHECK_DEADLOCK FALSE",
+                       impl_constants(SealFix=False, MaxEvents=5, Deltas={3}, MaxOps=9 if T else 8))
+    alias = ctx.generate(bad, workers=4, timeout=900)
+    if not alias:
+        raise vf.Infra("the model of the unfixed SealBuffer no longer breaks the property")
+    # (b) the same for the flusher falling more than the sealed buffers behind (open finding)
+    lagm = ctx.instance("GB_LogBufferImpl_lag", "LogBufferImpl",
+                        "SPECIFICATION Spec\nINVARIANT EmitBad\nCONSTRAINT Good\nVIEW MCView\nCHECK_DEADLOCK FALSE",
+                        impl_constants(MaxPending=5, MaxEvents=6, Deltas={3}, MaxOps=10 if T else 8))
+    lag = ctx.generate(lagm, workers=4, timeout=900)
+    if not lag:
+        raise vf.Infra("the model no longer shows the flush-lag gap")
+    ctx.notes["model_counterexamples_replayed"] = {"sealbuffer_alias": len(alias), "flush_lag": len(lag)}
+    # (c) G2: one shortest schedule per (shape of the implementation state, incoming step)
+    def g2(name, readers, depth):
+        inst = ctx.instance(name, "LogBufferImpl", "SPECIFICATION Spec\nINVARIANT EmitW\nVIEW View\nCHECK_DEADLOCK FALSE",
+                            impl_constants(MaxEvents=6, Deltas={0, 1, 3}, MaxOps=depth, MaxPending=5, Readers=readers))
+        return ctx.generate(inst, workers=4, timeout=1500)
+    wit = g2("G2_LogBufferImpl", {1}, 10 if T else 7)
+    ctx.notes["g2_witnesses"] = len(wit)
+    if T:
+        wit2 = g2("G2_LogBufferImpl_2readers", {1, 2}, 7)
+        ctx.notes["g2_witnesses_2readers"] = len(wit2)
+        wit += wit2[ctx.seed % 4::4]
+    else:
+        wit = wit[ctx.seed % 6::6]
+    model = alias[: 400 if T else 60] + lag[: 400 if T else 60] + wit
+    nsnap = 3000 if T else 250      # these are also recorded with state snapshots (layer-B conformance)
+    scripts = [(dict(HOOK, snap=i < nsnap), h + TAIL) for i, h in enumerate(model)]
+    # (d) G4 random schedules, (e) the same through the public constructor
+    rnd = random_scripts(rng, 3000 if T else 300) + random_scripts(rng, 1000 if T else 100, sizes=True)
+    pub = [(public_cfg(2), to_public(h + TAIL)) for h in model[:: 10 if T else 20]]
+    pub += random_scripts(rng, 300 if T else 40, public=True)
+    return scripts, rnd + pub
+
+
+def run(ctx):
+    ctx.sany("Subscribe", "SubscribeMC", "LogBufferImpl", "SubscribeTrace", "LogBufferImplTrace")
+    T = ctx.thorough
+    dev = bool(os.environ.get("C22_DEV"))
+    kfb = set(ctx.kf_open.keys()) & {LAG}
+    # 1. layer A alone: the statement's wording (once, in order, nothing older, no gap) follows
+    #    from the prefix formulation that the judge uses
     a = ctx.instance("MC_Subscribe", "SubscribeMC", "Subscribe_mc.cfg",
                      {"Readers": {1, 2} if T else {1}, "MaxBump": 2, "AMaxLog": 4 if T else 3, "AMaxTs": 4 if T else 3})
-    if not os.environ.get("C22_DEV"):
+    if not dev:
         ctx.model_check(a, workers=4)
-    # 2. layer B: every interleaving of appender, timer, flusher and reader(s) keeps the property
+    # 2. layer B, every interleaving of appender, timer, flusher and subscriber(s):
+    #    strictly while the flusher is at most the sealed buffers behind ...
     b = ctx.instance("MC_LogBufferImpl", "LogBufferImpl", "LogBufferImpl_mc.cfg",
-                     impl_constants(MaxEvents=5 if T else 4))
-    if not os.environ.get("C22_DEV"):
-        ctx.model_check(b, workers=4, timeout=1500)
-    scripts = []
-    # 3. generators
-    g2 = ctx.instance("G2_LogBufferImpl", "LogBufferImpl",
-                      "SPECIFICATION Spec\nINVARIANT EmitW\nVIEW View\nCHECK_DEADLOCK FALSE",
-                      impl_constants(MaxEvents=6, Deltas={0, 1, 3}, MaxOps=14 if T else 10, MaxPending=5, Readers={1, 2} if T else {1}))
-    for h in ctx.generate(g2, workers=4, timeout=1500):
-        scripts.append((HOOK, h + TAIL))
-    rng = random.Random(ctx.seed)
-    scripts += random_scripts(rng, 3000 if T else 400)
-    pub = [(public_cfg(2), to_public(ops)) for cfg, ops in scripts[: 300 if T else 60]]
-    pub += random_scripts(rng, 300 if T else 60, public=True)
+                     impl_constants(MaxEvents=5 if T else 4), )
+    if not dev:
+        ctx.model_check(b, workers=4, timeout=1500, label="flusher <= 3 buffers behind, strict")
+    #    ... and with the listed lag deviation as the only excuse when it is further behind
+    if T and not dev:
+        b2 = ctx.instance("MC_LogBufferImpl_lag", "LogBufferImpl", "LogBufferImpl_mc.cfg",
+                          impl_constants(MaxEvents=6, Deltas={3}, MaxPending=6, KFB=kfb))
+        ctx.model_check(b2, workers=4, timeout=1500, label="flusher any distance behind, lag deviation admitted")
     script = os.path.join(ctx.out, "script.ndjson")
-    if ctx.replay:
-        script = ctx.replay
-    else:
-        write_script(script, scripts + pub)
     binp = ctx.build("c22")
-    trace = ctx.drive(binp, ["--script", script])
+    consts = {"Readers": READERS, "MaxBump": 2}
 
     def mutate(evs):
         for i, e in enumerate(evs):
             if e["ev"] == "rd" and len(e["got"]) >= 1 and any(x["ev"] == "end" and x["r"] == e["r"] for x in evs):
+                ids = [g[0] for x in evs if x["ev"] == "rd" and x["r"] == e["r"] for g in x["got"]]
+                if len(set(ids)) != len(ids):
+                    continue                        # (losing a repeated delivery is no corruption)
                 m = [dict(x) for x in evs]
                 m[i]["got"] = e["got"][1:]          # one delivery lost
                 return m
         return None
 
-    consts = {"Readers": READERS, "MaxBump": 2}
-    ctx.judge("SubscribeTrace", trace, "trace_base.cfg", consts,
-              nontrivial=lambda e: sum(1 for x in e if '"ev":"rd"' in x and '"got":[]' not in x) >= 2, mutate=mutate)
-    ctx.rule = "TODO"
+    def nontrivial(e):
+        return sum(1 for x in e if '"ev":"rd"' in x and '"got":[]' not in x) >= 2
+
+    if ctx.replay:
+        trace = ctx.drive(binp, ["--script", os.path.abspath(ctx.replay)])
+        ctx.judge("SubscribeTrace", trace, "trace_base.cfg", consts, nontrivial=nontrivial)
+        return
+    model, other = gen_scripts(ctx)
+    write_script(script, model + other)
+    trace = ctx.drive(binp, ["--script", script])
+    ctx.judge("SubscribeTrace", trace, "trace_base.cfg", consts, nontrivial=nontrivial, mutate=mutate)
+    # 3. conformance of layer B (advisory): the model-generated schedules, replayed with a snapshot of
+    #    the unexported state after every step, must be steps of the model with the same state
+    conformance(ctx, trace, len(model))
+    # 4. free-running goroutines (appender, timer, flusher, subscribers); thorough: under the race detector
+    if T:
+        rbin = ctx.build("c22", race=True)
+        st = ctx.drive(rbin, ["--mode", "race", "--n", 300], name="storm", timeout=1500)
+    else:
+        st = ctx.drive(binp, ["--mode", "storm", "--n", 40], name="storm")
+    ctx.judge("SubscribeTrace", st, "trace_base.cfg", consts, nontrivial=nontrivial, label="s")
+    ctx.rule = ("executions = (1) schedules generated by TLC from the implementation-shaped model (every schedule on "
+                "which the model of the unfixed SealBuffer / of a lagging flusher breaks the property, and one shortest "
+                "schedule per shape of (buffer, sealed slots, flusher, reader position) x incoming step), replayed "
+                "step by step on the real LogBuffer (gated flushFn, gated subscriber callbacks); (2) seeded random "
+                "schedules incl. variable and oversize payloads; (3) the same through NewLogBuffer itself; (4) "
+                "free-running goroutine storms (thorough: race detector). Every execution ends with Shutdown, a "
+                "late subscriber from 0 and all subscribers drained. non-trivial = at least 2 non-empty deliveries; "
+                "distinct by hash of the recorded execution")
     ctx.exhaustive = False
+    ctx.assumptions += [
+        "the persisted log of the subscriber loop is the byte stream handed to flushFn (read back with "
+        "filer.ReadEachLogEntry as ReadPersistedLogBuffer does); the filer's own segment files are not involved",
+        "one appender per execution (the order of AddToBuffer calls is the order of the log)",
+        "a bumped timestamp may be anything up to 2 ns later than the previous one",
+        "the race detector only sees the interleavings of the thorough tier's storm (300 executions)",
+    ]
+
+
+def conformance(ctx, trace, nmodel):
+    execs = vf.split_execs(trace)[:nmodel]
+    execs = [e for e in execs if '"snap":true' in e[0].replace(" ", "")]
+    cons = impl_constants(Readers=READERS, MaxEvents=100, MaxPending=100, MaxOps=100000, KFB=set())
+    chunks = [execs[i:i + 400] for i in range(0, len(execs), 400)]
+    bad = 0
+    for ci, ch in enumerate(chunks):
+        acc = ctx._judge_chunk("LogBufferImplTrace", ch, "trace_base.cfg", cons, set(), 900, False, "conf%d" % ci)
+        for xi, e in enumerate(ch):
+            if not acc.get(xi + 1):
+                bad += 1
+                if len(ctx.model_drift) < 5:
+                    ctx.model_drift.append({"spec": "LogBufferImpl", "execution": [json.loads(x) for x in e[:40]]})
+    ctx.notes["layerB_conformance"] = {"executions": len(execs), "not_reproduced_by_model": bad}
+    vf.log("layer-B conformance: %d executions, %d not reproduced by the model" % (len(execs), bad))
